@@ -1,8 +1,8 @@
 SPECIFICATION Spec
 CONSTANTS
   Hash <- SHA1
-  ReadKinds = {"UnexpectedEof", "ConnectionReset"}
-  WriteKinds = {"BrokenPipe", "WriteZero"}
+  ReadKinds = {"UnexpectedEof", "ConnectionReset", "WouldBlock", "TimedOut", "Other"}
+  WriteKinds = {"BrokenPipe", "WriteZero", "WouldBlock", "TimedOut", "Other"}
   IntrChoices = {0, 1, 2}
 INVARIANTS ReadFacts WriteFacts EmitInv
 CHECK_DEADLOCK FALSE
